@@ -301,7 +301,8 @@ lazy_static! {
         ].into_iter()
     );
 
-    static ref TWO_CHAR_OPERATORS: HashSet<char> = HashSet::from_iter(vec!['<', '>', '!', '=', '-'].into_iter());
+    // The operators made of two characters (-- starts a comment). The characters must be adjacent.
+    static ref TWO_CHAR_OPERATORS: HashSet<(char, char)> = HashSet::from_iter(vec![('<', '='), ('>', '='), ('!', '='), ('-', '-')].into_iter());
 }
 
 pub fn tokenize_simple(text: &str) -> Result<Vec<Token>, ParserError> {
@@ -349,7 +350,11 @@ pub fn tokenize(text: &str) -> Result<Vec<ParserToken>, ParserError> {
     let mut current_str: Option<String> = None;
     let mut is_escaped = false;
     let mut is_comment = false;
+    let mut last_char = None;
     while let Some(current) = state.next_char() {
+        // The character directly before the current one (two-character operators must be adjacent)
+        let previous_char = std::mem::replace(&mut last_char, Some(current));
+
         if current == '\n' {
             state.line += 1;
             state.column = 0;
@@ -496,11 +501,11 @@ pub fn tokenize(text: &str) -> Result<Vec<ParserToken>, ParserError> {
             let mut is_dual = false;
             if let Some(last) = state.tokens.last().map(|t| &t.token) {
                 match last {
-                    Token::Operator(Operator::Single('=')) if current == '>' => {
+                    Token::Operator(Operator::Single('=')) if current == '>' && previous_char == Some('=') => {
                         state.tokens.last_mut().unwrap().token = Token::RightArrow;
                         is_dual = true;
                     },
-                    Token::Operator(Operator::Single(operator)) if TWO_CHAR_OPERATORS.contains(operator) => {
+                    Token::Operator(Operator::Single(operator)) if previous_char == Some(*operator) && TWO_CHAR_OPERATORS.contains(&(*operator, current)) => {
                         state.tokens.last_mut().unwrap().token = Token::Operator(Operator::Dual(*operator, current));
                         is_dual = true;
                     }
